@@ -158,6 +158,10 @@ class RecApp(app_mod.Application):
         h = message.header
         self.sim.obs.append(f"APP a{self.idx} ANS cmd={h.command_code} hbh={h.hop_by_hop_identifier} e2e={h.end_to_end_identifier}")
 
+    def stop(self):
+        self.sim.obs.append(f"APPSTOP a{self.idx}")
+        super().stop()
+
 
 class RecThreadApp(app_mod.ThreadingApplication):
     def __init__(self, sim, idx, *a, **k):
@@ -180,6 +184,10 @@ class RecThreadApp(app_mod.ThreadingApplication):
     def handle_answer(self, message):
         h = message.header
         self.sim.obs.append(f"APP a{self.idx} ANS cmd={h.command_code} hbh={h.hop_by_hop_identifier} e2e={h.end_to_end_identifier}")
+
+    def stop(self):
+        self.sim.obs.append(f"APPSTOP a{self.idx}")
+        super().stop()
 
 
 class Sim:
@@ -224,6 +232,8 @@ class Sim:
             n.wakeup_interval = int(kv["wake"])
         if "rq" in kv:
             n.retransmit_queue_size = int(kv["rq"])
+        if kv.get("noval") == "1":
+            n.validate_received_request_avps = False
         self.peers = []
         for pc in self.peer_cfg:
             name, realm, persistent, always, wait, hasaddr, default = pc[:7]
